@@ -161,7 +161,9 @@ def ps_post(ctx, st, result):
 
 # ------------------------------------------------------------------------------------- ActionConfigFile.apply_config
 def ac_setup(ctx):
-    is_path = ctx.choose(2, "value-is-a-readable-path") == 1
+    # argparse hands over an empty *list* for `--cfg=--` (it strips the '--'): a value that is not text is neither a path nor a configuration
+    not_text = ctx.choose(2, "value-is-not-text(an empty list)") == 1
+    is_path = ctx.choose(2, "value-is-a-readable-path") == 1 if not not_text else False
     store = {"expr": "CFG-SO-FAR", "cfg": None}
     dict_rec = Rec("dict", methods={"update": lambda c, s_, a, k: (store.__setitem__("expr", a[0].attrs["expr"]), c.event("in-place-update"))[1]})
     dest_list = []
@@ -185,14 +187,28 @@ def ac_setup(ctx):
         "parse_path": lambda c, s_, a, k: (c.event("parse_path", dict(k)), file_cfg)[1],
         "parse_string": lambda c, s_, a, k: (c.event("parse_string", dict(k)), file_cfg)[1],
         "merge_config": merge_config})
-    calls = {"Path": path_ctor, "get_config_read_mode": lambda c, a, k: "fr", "load_value": lambda c, a, k: Rec("dict"), "get_loader_exceptions": lambda c, a, k: (ClassRef("YAMLError"),)}
+    def load_value(c, a, k):
+        if isinstance(a[0], list):
+            raise PyRaise(ExcVal("AttributeError", args=("'list' object has no attribute 'strip'",), origin="load_value"))  # (load_value is for text)
+        return Rec("dict")
+
+    calls = {"Path": path_ctor, "get_config_read_mode": lambda c, a, k: "fr", "load_value": load_value, "get_loader_exceptions": lambda c, a, k: (ClassRef("YAMLError"),)}
     cms = {"_ActionSubCommands.not_single_subcommand": noop_cm("not_single"), "previous_config_context": noop_cm("previous_config"), "skip_apply_links": noop_cm("skip_links")}
     ctx.classes.add("YAMLError", ["Exception"])
-    return Setup(env={"parser": parser, "cfg": cfg_rec, "dest": "cfg", "value": z3.String("value")}, calls=calls, cms=cms, data=dict(store=store, is_path=is_path, path_obj=path_obj))
+    return Setup(env={"parser": parser, "cfg": cfg_rec, "dest": "cfg", "value": [] if not_text else z3.String("value")}, calls=calls, cms=cms,
+                 data=dict(store=store, is_path=is_path, path_obj=path_obj, not_text=not_text))
+
+
+def ac_raises(ctx, st, exc):
+    d = st.data
+    ctx.oblige("raises", f"refused=>TypeError-naming-the-option(what the parse methods report as ArgumentError),only-for-a-value-that-is-not-text(got {exc.cls}@{exc.origin})",
+               d["not_text"] and exc.cls == "TypeError" and exc.origin.startswith("raise@"))
+    ctx.oblige("frame", "a-refused-value-leaves-the-configuration-so-far-untouched", d["store"]["expr"] == "CFG-SO-FAR" and d["store"]["cfg"] is None)
 
 
 def ac_post(ctx, st, result):
     d = st.data
+    ctx.oblige("post", "accepted=>the-value-is-text", not d["not_text"])
     merges = [e for e in ctx.events if e[0] == "merge"]
     ctx.oblige("post", "cfg'==ov(cfg so far, config file)(the file overrides what came before it)", merges == [("merge", "FILE", "CFG-SO-FAR")] and d["store"]["expr"] == ov("CFG-SO-FAR", "FILE"), note=str(merges))
     sub = [e for e in ctx.events if e[0] in ("parse_path", "parse_string")]
@@ -289,7 +305,7 @@ UNITS = [
          trusted=["argparse applies the command line items left to right on the namespace it is seeded with (A8)"]),
     Unit("C04", "jsonargparse._core:ArgumentParser.parse_object", po_setup, po_post, no_exc),
     Unit("C04", "jsonargparse._core:ArgumentParser.parse_string", ps_setup, ps_post, no_exc),
-    Unit("C04", "jsonargparse._actions:ActionConfigFile.apply_config", ac_setup, ac_post, no_exc,
+    Unit("C04", "jsonargparse._actions:ActionConfigFile.apply_config", ac_setup, ac_post, ac_raises,
          trusted=["parser.parse_path / parse_string return the file's own settings when called with env=False, defaults=False"]),
     Unit("C04", "jsonargparse._core:ArgumentParser._load_env_vars", le_setup, le_post, no_exc),
 ]
@@ -316,6 +332,8 @@ def gd_setup(ctx):
     kinds = [("value",), ("value", "suppressed-default", "value"), ("unknown-default", "value"), ("suppressed-dest", "value"), ()][ctx.choose(5, "declared-actions")]
     files = [(), ("valid",), ("empty",), ("blank", "valid"), ("valid", "valid"), ("valid", "empty", "valid")][ctx.choose(6, "default-config-files")]
     fail = ["none", "TypeError", "KeyError", "ArgumentError", "OSError"][ctx.choose(5, "completing-a-file-fails-with")] if "valid" in files else "none"
+    # the text of a default config file may already fail to *load* (broken YAML, a character the loader refuses): the same kind of problem as a bad value in it
+    load_fail = ctx.choose(2, "loading-a-file-fails(TypeError: Problems parsing config)") == 1 if ("valid" in files and fail == "none") else False
     skip_validation = z3.Bool("skip_validation")
     ctx.classes.add("UnknownDefault", ["object"])
     ctx.classes.add("Path", ["object"])
@@ -336,6 +354,8 @@ def gd_setup(ctx):
 
     def load(c, s_, a, k):
         c.event("load", a[0], k.get("key"), list(open_cms))
+        if load_fail:
+            raise PyRaise(ExcVal("TypeError", args=("Problems parsing config",), origin="_load_config_parser_mode"))
         return Rec("Namespace", attrs={"expr": ("FILE", len([e for e in c.events if e[0] == "load"]) - 1)})
 
     def merge(c, s_, a, k):
@@ -366,7 +386,7 @@ def gd_setup(ctx):
               "ArgumentParser": Rec("class ArgumentParser", attrs={"get_defaults": Rec("function")})}
     cms = {"change_to_path_dir": cm("cwd"), "parser_context": cm("parser_context"), "_ActionPrintConfig.skip_print_config": cm("skip_print_config")}
     return Setup(env={"self": self, "skip_validation": skip_validation, "kwargs": {}}, calls=calls, consts=consts, cms=cms,
-                 data=dict(kinds=kinds, files=files, fail=fail, actions=actions, copies=copies, store=store, paths=paths, self_=self, skip_validation=skip_validation, open_cms=open_cms))
+                 data=dict(load_fail=load_fail, kinds=kinds, files=files, fail=fail, actions=actions, copies=copies, store=store, paths=paths, self_=self, skip_validation=skip_validation, open_cms=open_cms))
 
 
 def gd_expected_expr(files):
@@ -405,8 +425,9 @@ def gd_post(ctx, st, result):
 def gd_raises(ctx, st, exc):
     d = st.data
     tag = f"[files:{list(d['files'])},fails:{d['fail']}]"
-    if d["fail"] in ("TypeError", "KeyError", "ArgumentError"):
-        ctx.oblige("raises", "a-problem-in-a-default-config-file-surfaces-as-ArgumentError" + tag, exc.cls == "ArgumentError" and exc.origin == "argument_error")
+    if d["fail"] in ("TypeError", "KeyError", "ArgumentError") or d["load_fail"]:
+        ctx.oblige("raises", "a-problem-in-a-default-config-file(in loading its text as much as in a value it gives)-surfaces-as-ArgumentError-naming-the-file" + tag + ("[load]" if d["load_fail"] else ""),
+                   exc.cls == "ArgumentError" and exc.origin == "argument_error")
     else:
         # what happens to other exception classes is not fixed by this property (C03 would want ArgumentError): either is accepted, inventing one is not
         ctx.oblige("raises", f"an-exception-only-when-completing-a-file-failed(got {exc.cls}@{exc.origin})" + tag, d["fail"] == "OSError" and exc.cls in ("OSError", "ArgumentError"))
